@@ -264,6 +264,7 @@ func genC18(c *Ctx) {
 			}
 		}
 	}
+	genC18Esds(c, freqs) // esds descriptor model correspondence (c18model.go)
 }
 
 func aacEntry(ot byte, f int) string {
